@@ -689,7 +689,7 @@ static int iv_nvar (int id)
 	case IV_NAMES: return 22;
 	case IV_SELECTORS: return 12;
 	case IV_PARAMS: return 13;
-	case IV_BASIS: return 14;
+	case IV_BASIS: return 14 + 9;
 	case IV_FILES: return 4;
 	}
 	return 0;
@@ -877,6 +877,19 @@ static int do_invalid (HState * S, int id, int v, int *skip, int *lookup, char *
 		case 10: if (!n) { *skip = 1; break; } snprintf (what, wl, "mpq_QSload_basis_array(p,NULL,rstat) with %d columns", n); rv = mpq_QSload_basis_array (p, NULL, rs); break;
 		case 11: B.nstruct = n + 1; snprintf (what, wl, "mpq_QSwrite_basis(p,B,\"h.bas\") with B->nstruct=%d, problem has %d", n + 1, n); rv = mpq_QSwrite_basis (p, &B, "h.bas"); break;
 		case 12: if (!m) { *skip = 1; break; } rs[0] = 'q'; snprintf (what, wl, "mpq_QSwrite_basis(p,B,\"h.bas\") with row status byte 'q'"); rv = mpq_QSwrite_basis (p, &B, "h.bas"); break;
+		case 14: case 15: case 16: case 17: case 18: case 19: case 20: case 21: case 22: {
+			/* right sizes, right number of basic variables, one status byte just outside what its slot allows:
+			 * '3' (free) is a column status only; '4' and '/' are the neighbours of the legal range '0'..'3' / '0'..'2' */
+			static const char bytes[3] = { '3', '4', '/' };
+			int which = (v - 14) / 3, route = (v - 14) % 3;      /* which: 0 row slot '3', 1 row slot '4', 2 column slot '/' (needs a second column) */
+			if (!m || !n || (which == 2 && n < 2)) { *skip = 1; break; }
+			if (which < 2) { rs[0] = bytes[which]; cs[0] = QS_COL_BSTAT_BASIC; }      /* row 0 non-basic with the odd byte, column 0 basic instead: m basic variables */
+			else cs[1] = bytes[2];                                                      /* a non-basic column with the odd byte: still m basic variables */
+			snprintf (what, wl, "%s with %s status byte '%c' and the right number of basic variables", route == 0 ? "mpq_QSload_basis(p,B)" : route == 1 ? "mpq_QSload_basis_array(p,cstat,rstat)" : "mpq_QSwrite_basis(p,B,\"h.bas\")",
+				which < 2 ? "row" : "column", bytes[which]);
+			rv = route == 0 ? mpq_QSload_basis (p, &B) : route == 1 ? mpq_QSload_basis_array (p, cs, rs) : mpq_QSwrite_basis (p, &B, "h.bas");
+			break;
+		}
 		default: if (!m) { *skip = 1; break; } for (int q = 0; q < m; q++) rs[q] = QS_ROW_BSTAT_UPPER; snprintf (what, wl, "mpq_QSload_basis_and_row_norms_array(p,cstat,rstat,norms) with no basic variable"); rv = mpq_QSload_basis_and_row_norms_array (p, cs, rs, out); break;
 		}
 		free (cs); free (rs);
